@@ -631,3 +631,5 @@ MUTANTS = [
 ]
 
 RENAME_FUNCS = [(PL, 'BasePerformance._from_quantized_sequence'), (ML, 'Melody.from_quantized_sequence'), (CL, 'ChordProgression.from_quantized_sequence'), (DL, 'DrumTrack.from_quantized_sequence')]
+
+EXPLANATION += (' Location-independent additions: ROLL/gap-index-in-range (a store into row O-1 needs 0 < O; found F26), ROLL/pitch-range-inclusive (boundary scenarios pitch == min/max +-1), CHORD/previous-step (a carried step is never a clamped constant), MEL/gap-bar-length, DRUM/gap normal form.')
